@@ -8,6 +8,7 @@ can produce it: end of stream, as a half-close, so the device keeps reading and
 """
 
 from .. import env, gen, ops, tcpwork
+from ..fakes import memstream
 from ..fakes import tcp_device as td
 from ..prop import Prop
 from ..ref import frames, replies
@@ -74,7 +75,8 @@ class C09(Prop):
     technique = "fault injection at every step of every exchange by a scripted fake device; outcome/exception-type and frame-log oracle"
     rule = ("fault case = (operation shape of 17, step of its exchange, fault); enumerated completely: end-of-stream and every prefix length "
             "of the valid reply at every step; sampled (seeded): random bytes of 1..1024 and single-field corruptions of state replies; "
-            "distinct = (shape, step, fault class, fault length or corruption); non-trivial = all (each injects a fault)")
+            "plus 8-operation histories on ONE instance over an in-memory stream where single reads are empty / truncated / garbage and the "
+            "surrounding replies are healthy; distinct = (shape, step, fault class, fault length or corruption); non-trivial = all (each injects a fault)")
     level_text = ("Every single-fault point of every exchange is enumerated for end-of-stream and truncation (complete on every run), and "
                   "sampled for garbage and field corruption; the oracle checks the exception type of state queries, the success flag of "
                   "every returned response against the emptiness of the last reply, and that nothing is written after an empty login reply.")
@@ -110,6 +112,11 @@ class C09(Prop):
                     if i % nshards == shard:
                         yield {"shape": sh[0], "step": step, "fault": list(fault), "enumerated": True}
                     i += 1
+        n_hist = {"quick": 1_600, "thorough": 30_000}[tier]
+        for j in range(n_hist):
+            if i % nshards == shard:
+                yield {"history": True, "seed": f"{seed}/h{j}", "type": 1 + j % 2}
+            i += 1
         n_rand = {"quick": 40_000, "thorough": 400_000}[tier]
         for j in range(n_rand):
             if i % nshards == shard:
@@ -150,7 +157,84 @@ class C09(Prop):
             return corrupt(v, CORRUPTIONS[fault[1]][fault[2]])
         raise KeyError(kind)
 
+    async def _history(self, case, acc):
+        """8 operations on ONE api instance over an in-memory stream; some get one faulty reply (a single empty read,
+        a truncated or a garbage reply) at one step, the replies around it are healthy."""
+        import aioswitcher.api as api_mod
+
+        r = env.rng("C09h", case["seed"])
+        t = case["type"]
+        shapes = [sh for sh in SHAPES if sh[1] == t]
+        fam = {"v": "thermostat"}
+        healthy = td.auto_responder(thermostat=REPORTED, family=lambda conn: fam["v"],
+                                    schedule_records=[replies.schedule_record(0, 0x54, 1_700_000_000, 1_700_003_600)])
+        inject = {"base": 0, "step": None, "bytes": None}
+
+        def responder(conn, idx, frame):
+            if inject["step"] is not None and idx - inject["base"] == inject["step"]:
+                return inject["bytes"]
+            return healthy(conn, idx, frame)
+
+        with memstream.Patch(responder) as mp:
+            api = (api_mod.SwitcherType1Api if t == 1 else api_mod.SwitcherType2Api)("192.0.2.9", "a1b2c3", "18")
+            await api.connect()
+            conn = mp.conns[-1]
+            trace = []
+            for n in range(8):
+                sh = r.choice(shapes)
+                name, _, op, args, remote_kind, nsteps = sh
+                fam["v"] = "shutter" if name == "get_shutter_state" else "thermostat"
+                step = r.randrange(nsteps) if (n > 0 and r.random() < 0.6) else None
+                fault = None
+                if step is not None:
+                    x = r.random()
+                    v = valid_reply(sh, step)
+                    if x < 0.5:
+                        fault, data = "empty", memstream.EMPTY
+                    elif x < 0.75:
+                        k = r.randrange(1, len(v))
+                        fault, data = f"prefix{k}", v[:k]
+                    else:
+                        fault, data = "garbage", r.randbytes(r.randrange(1, 300))
+                    inject.update(base=len(conn.frames), step=step, bytes=data)
+                base = len(conn.frames)
+                n_sent = len(conn.sent)
+                rec = tcpwork.OpRecord(op, args)
+                try:
+                    rec.value = await ops.call(api, op, args, self.remotes.get(remote_kind))
+                    rec.outcome = "return"
+                except Exception as exc:
+                    rec.outcome, rec.exc = "raise", exc
+                inject["step"] = None
+                writes = conn.frames[base:]
+                sent = conn.sent[n_sent:]
+                acc.ev()
+                acc.count("history_operations")
+                trace.append((name, step, fault, rec.outcome, type(rec.exc).__name__ if rec.exc else None))
+                tag = f"history op #{n + 1} {name} step {step} fault {fault} (earlier: {[x[0] for x in trace[:-1]]})"
+                if name in STATE_QUERIES and rec.outcome == "raise" and type(rec.exc) is not RuntimeError:
+                    acc.violation(f"state-query-wrong-exception:{name}:{type(rec.exc).__name__}", f"{tag}: raised {type(rec.exc).__name__}: {rec.exc}",
+                                  {"trace": [str(x) for x in trace]})
+                if rec.outcome == "return" and hasattr(rec.value, "successful") and hasattr(rec.value, "unparsed_response"):
+                    last = b"" if (not sent or isinstance(sent[-1], str)) else sent[-1]
+                    raw = rec.value.unparsed_response or b""
+                    if bool(rec.value.successful) != (len(last) > 0) or raw != last:
+                        acc.violation(f"success-flag-wrong:{name}:in-history", f"{tag}: successful={rec.value.successful}, the reply to its last frame had "
+                                      f"{len(last)} bytes, the response holds {len(raw)} bytes", {"trace": [str(x) for x in trace]})
+                if step == 0 and fault == "empty" and (name in STATE_QUERIES or t == 2):
+                    if not (rec.outcome == "raise" and type(rec.exc) is RuntimeError):
+                        acc.violation(f"empty-login-not-runtimeerror:{name}:in-history", f"{tag}: outcome {rec.outcome}", {"trace": [str(x) for x in trace]})
+                    if len(writes) != 1:
+                        acc.violation(f"frame-after-empty-login:{name}:in-history", f"{tag}: wrote {len(writes)} frames", {"trace": [str(x) for x in trace]})
+                if step is not None:
+                    acc.sig(env.sig("hist", name, step, fault[:6], n))
+            await api.disconnect()
+        acc.count("histories")
+
     async def run_case(self, case, acc, ctx):
+        if case.get("history"):
+            await self._history(case, acc)
+            return
         sh = SHAPE_BY_NAME[case["shape"]]
         name, t, op, args, remote_kind, nsteps = sh
         step, fault = case["step"], case["fault"]
